@@ -23,13 +23,13 @@ func init() {
 		Rule: "user sets are drawn from an 8-spec pool containing DNs that are prefixes of one another (cn=a, cn=ab, 'cn=a,dc=x'), a duplicate DN with a different password, a user without a password attribute, " +
 			"an empty first password, several password values, and a case variant; EXHAUSTIVE for all user sets of size <= 2 x 9 bind DNs (pool DNs, case variants, empty, bytes) x 5 passwords (incl. empty) x both " +
 			"AllowAnonymousBind settings, plus random larger sets, plus user sets reached through sequences of LDAP Add and Delete requests, over plain, TLS and StartTLS-upgraded connections (raw client; go-ldap as a second client on a sample). " +
-			"Oracle: result code == (pw==\"\" && anon) || exists user u with u.DN == dn and first password value == pw ? 0 : 49. Set* calls happen only between binds. The pool also has a 200-byte password (tried with its 128-byte prefix and another tail), passwords with NUL bytes, an entry named like a userPrincipalName login (the directory runs with Defaults.UPNDomain), entries built as literals or with values assigned after construction, a password that looks like a BER-wrapped string (and BER-wrapped forms of other passwords as bind attempts), group entries that carry a password attribute (one of them with the DN of a pool user); the directory's response controls cycle through none / Behera grace, expiry and three error codes / a critical string control. " +
+			"Oracle: result code == (pw==\"\" && anon) || exists user u with u.DN == dn and first password value == pw ? 0 : 49. Set* calls happen between binds (and, in one scenario, all the time with unchanged values). Passwords include same-length near misses whose byte-wise differences cancel out; every third user set also asks a sample of its questions two at a time (two BindRequests in one write). The pool also has a 200-byte password (tried with its 128-byte prefix and another tail), passwords with NUL bytes, an entry named like a userPrincipalName login (the directory runs with Defaults.UPNDomain), entries built as literals or with values assigned after construction, a password that looks like a BER-wrapped string (and BER-wrapped forms of other passwords as bind attempts), group entries that carry a password attribute (one of them with the DN of a pool user); the directory's response controls cycle through none / Behera grace, expiry and three error codes / a critical string control. " +
 			"distinct_nontrivial = distinct (user set, anon, dn, password) cases",
 		Assume: []string{"the directory is configured through SetUsers / SetAllowAnonymousBind between binds (sequential use)"},
 		Phases: func(tier string, seed int64) []Phase {
 			return []Phase{{Name: "binds-plain", Run: func(c *Ctx) { c19Run(c, "plain") }}, {Name: "binds-tls", Run: func(c *Ctx) { c19Run(c, "tls") }}, {Name: "binds-starttls", Run: func(c *Ctx) { c19Run(c, "starttls") }}}
 		},
-		MinObserved: []string{"binds", "binds_expected_success", "binds_expected_failure", "ldap_mutation_steps", "user_sets_checked_with_response_controls_configured", "user_sets_checked_while_the_configuration_was_being_reapplied"},
+		MinObserved: []string{"binds", "binds_expected_success", "binds_expected_failure", "ldap_mutation_steps", "user_sets_checked_with_response_controls_configured", "user_sets_checked_while_the_configuration_was_being_reapplied", "binds_sent_two_in_one_write"},
 	})
 }
 
@@ -58,7 +58,10 @@ var c19Pool = []c19User{
 var c19Long = strings.Repeat("0123456789abcdef", 12) + "tail-one"
 
 var c19DNs = []string{"cn=a", "cn=ab", "cn=a,dc=x", "CN=A", "cn=", "", "cn=e", "cn=d", "cn=c", "\xffcn=a", "cn=long", "cn=bin", "cn=ber", "cn=group-with-password,ou=groups,dc=example,dc=org", "upn@example.com", "upn", "userPrincipalName=upn@example.com,ou=people,dc=example,dc=org"}
-var c19PWs = []string{"pa", "pb", "", "p2", "other", "p1", "pa\x00", "\x00", "p", "p\x00q", "p\x00", c19Long, c19Long[:128], c19Long[:192] + "tail-two", c19Long + "\x00", "pu", "\x04\x02pa", "\x1b\x02pa", "\x04\x02pb", "gp"}
+var c19PWs = []string{"pa", "pb", "", "p2", "other", "p1", "pa\x00", "\x00", "p", "p\x00q", "p\x00", c19Long, c19Long[:128], c19Long[:192] + "tail-two", c19Long + "\x00", "pu", "\x04\x02pa", "\x1b\x02pa", "\x04\x02pb", "gp",
+	// near misses of the stored passwords, of the same length, whose byte-wise differences cancel out under one folding or
+	// another (high bits toggled in two places, two bytes swapped, one byte up and one down)
+	"\xf0\xe1", "\xf0\xe2", "\xf0\xb1", "\xf0\xf5", "\xef\xf4her", "ap", "bp", "q`", "1p", "PA"}
 
 func c19Pred(users []c19User, anon bool, dn, pw string) bool {
 	if pw == "" && anon {
@@ -263,6 +266,66 @@ func c19Run(c *Ctx, transport string) {
 						c.Violate("go-ldap sees a different bind outcome", fmt.Sprintf("users %s anon=%v bind(%q,%q): %v, want code %d", setSig, anon, dn, pw, e, want), nil)
 					}
 					c.Count("goldap_binds", 1)
+				}
+			}
+		}
+		// every third user set: a sample of the same questions asked two at a time - two BindRequests in one write, on
+		// the one connection - each of which gets its own answer
+		if checks%3 == 0 {
+			type qa struct {
+				dn, pw string
+				id     int64
+			}
+			var qs []qa
+			k := 0
+			for _, dn := range c19DNs {
+				for _, pw := range c19PWs {
+					if k++; k%7 == 0 {
+						id++
+						qs = append(qs, qa{dn, pw, id})
+					}
+				}
+			}
+			for i := 0; i+1 < len(qs); i += 2 {
+				a, b := qs[i], qs[i+1]
+				if err := cl.Send(append(sber.Message(a.id, sber.BindRequest(3, []byte(a.dn), []byte(a.pw)), nil).Encode(), sber.Message(b.id, sber.BindRequest(3, []byte(b.dn), []byte(b.pw)), nil).Encode()...)); err != nil {
+					break
+				}
+				got := map[int64]int64{}
+				for n := 0; n < 2; n++ {
+					m, err := cl.ReadMsg(patience)
+					if err != nil {
+						c.Violate("bind got no well-formed answer", "two binds sent in one write: "+err.Error(), map[string]any{"users": users, "anon": anon})
+						cl.Close()
+						if cl, err = dirDial(addr, transport); err != nil {
+							c.Inconclusive("redial: " + err.Error())
+							return false
+						}
+						break
+					}
+					if res, err := sber.AsResult(m.Op); err == nil && m.Op.Tag == sber.AppBindResponse {
+						got[m.ID] = res.Code
+					}
+				}
+				for _, q := range []qa{a, b} {
+					code, ok := got[q.id]
+					if !ok {
+						continue
+					}
+					c.Count("binds", 1)
+					c.Count("binds_sent_two_in_one_write", 1)
+					want := int64(49)
+					if c19Pred(users, anon, q.dn, q.pw) {
+						want = 0
+					}
+					if code != want {
+						key := "bind succeeded without the right credentials"
+						if want == 0 {
+							key = "bind with the right credentials was refused"
+						}
+						c.Violate(key, fmt.Sprintf("[%s] users %s anon=%v, two binds in one write: bind(%q,%q) -> %d, want %d", transport, setSig, anon, q.dn, q.pw, code, want),
+							map[string]any{"users": users, "anon": anon, "dn_hex": hxs(q.dn), "pw": q.pw, "got": code, "want": want})
+					}
 				}
 			}
 		}
